@@ -14,6 +14,8 @@ pub struct Track {
     pub stsz: Vec<u32>,
     pub stco: Vec<u32>,
     pub stss: Option<Vec<u32>>,
+    /// an `edts` box is present in the trak (this oracle does not interpret edit lists)
+    pub has_edts: bool,
 }
 
 #[derive(Debug, Default, Clone)]
@@ -60,6 +62,7 @@ fn find<'a>(kids: &'a [([u8; 4], usize, usize)], t: &[u8; 4]) -> Result<&'a ([u8
 fn parse_trak(v: &[u8], o: usize, sz: usize) -> Result<Track, String> {
     let mut t = Track::default();
     let kids = children(v, o + 8, o + sz)?;
+    t.has_edts = kids.iter().any(|k| &k.0 == b"edts");
     let tkhd = find(&kids, b"tkhd")?;
     t.track_id = be32(v, tkhd.1 + 20)?;
     let mdia = find(&kids, b"mdia")?;
